@@ -33,11 +33,15 @@ TEMPLATES = {
 LEVELS = {
     'quick': [
         {'name': 'L1-N3-M2-K2', 'N': 3, 'M': 2, 'K': 2, 'variants': 'all', 'budget_s': 90},
+        {'name': 'L1b-N3-M3-K1-prio', 'N': 3, 'M': 3, 'K': 1, 'nevents': 1, 'variants': 'few', 'prio': 1,
+         'kinds': 'bco', 'targets': 'self_none', 'budget_s': 90},
         {'name': 'L2-N4-M1-K2', 'N': 4, 'M': 1, 'K': 2, 'variants': 'few', 'budget_s': 120},
-        {'name': 'L3-TE-M2-K1', 'templates': ['TE'], 'M': 2, 'K': 1, 'nevents': 1, 'variants': 'few', 'budget_s': 90},
+        {'name': 'L3-TE-M1-K2', 'templates': ['TE'], 'M': 1, 'K': 2, 'nevents': 1, 'variants': 'few', 'budget_s': 60},
     ],
     'thorough': [
-        {'name': 'L1-N3-M3-K3', 'N': 3, 'M': 3, 'K': 3, 'variants': 'all', 'budget_s': 600},
+        {'name': 'L1-N3-M3-K2', 'N': 3, 'M': 3, 'K': 2, 'variants': 'all', 'budget_s': 900},
+        {'name': 'L1b-N4-M3-K1-prio', 'N': 4, 'M': 3, 'K': 1, 'nevents': 1, 'variants': 'few', 'prio': 1,
+         'kinds': 'bco', 'targets': 'self_none', 'budget_s': 900},
         {'name': 'L2-N4-M3-K2', 'N': 4, 'M': 3, 'K': 2, 'variants': 'few', 'budget_s': 1800},
         {'name': 'L3-N5-M2-K2', 'N': 5, 'M': 2, 'K': 2, 'variants': 'few', 'budget_s': 1800},
         {'name': 'L4-TDTE-M3-K2', 'templates': ['TD', 'TE'], 'M': 3, 'K': 2, 'nevents': 2, 'variants': 'few',
@@ -54,7 +58,7 @@ HASHSEED = {'quick': {'seeds': [0, 1, 2], 'levels': [
                 {'name': 'H3-N5-M1-K2', 'N': 5, 'M': 1, 'K': 2, 'guards': 1, 'max_shards': 400}]}}
 WITNESSES = ['yaml_route', 'api_permuted', 'two_transitions_in_one_step', 'error_in_both', 'orthogonal_exit']
 STUBS = ['guards "G(t, event)" shared by both runs (same z3 constants); entry/exit/action probes log']
-ASSUMPTIONS = ['well-formed charts (DESIGN §2)', 'events from {a, b}', 'guards without side effects',
+ASSUMPTIONS = ['well-formed charts (DESIGN §2)', 'events from {a, b}', 'guards without side effects', 'priorities: unbounded symbolic integers shared by both runs, assigned after construction',
                'hash-seed clause: concrete re-execution under a handful of seeds, not a solver verdict']
 OUTSIDE = ['charts above the bounds of the completed level', 'permutations beyond the variant family of the level '
            '("all": every topological state order x every transition order; "few": reversed and rotated orders)',
@@ -68,14 +72,16 @@ def shards(level):
             out.extend(dict(sh, template=name) for sh in
                        cg.split_shards([dict(TEMPLATES[name])], level['M'], nevents=level.get('nevents', 2)))
         return out
-    return cg.split_shards(cg.skeletons(level['N'], ALL), level['M'])
+    kinds = [B, C, O] if level.get('kinds') == 'bco' else ALL
+    return cg.split_shards(cg.skeletons(level['N'], kinds), level['M'], nevents=level.get('nevents', 2))
 
 
 def expand(job, level):
     if 'chart' in job:
         yield job['chart']
         return
-    yield from cg.charts(job['skel'], level['M'], nevents=level.get('nevents', 2), targets='free',
+    yield from cg.charts(job['skel'], level['M'], nevents=level.get('nevents', 2),
+                         targets=level.get('targets', 'free'),
                          fix=job.get('fix'), hist_target=bool(level.get('hist_target')))
 
 
@@ -118,7 +124,8 @@ def variants(chart, mode):
         torders = [list(p) for p in itertools.permutations(range(m))]
     else:
         rot = list(range(m))[1:] + list(range(m))[:1]
-        return [(rev, list(range(m))[::-1], 'api'), (ident, list(range(m)), 'yaml'), (rev, rot, 'yaml')]
+        return [(rev, list(range(m))[::-1], 'api'), (ident, list(range(m)), 'yaml'), (rev, rot, 'yaml')] + (
+            [(ident, rot, 'api')] if m > 2 else [])
     out = []
     for so in sorders:
         for to in torders:
@@ -157,26 +164,31 @@ def ctx_of(inst):
     return {k: v for k, v in inst.it.context.items() if k not in ('G', 'A', 'P', 'S')}
 
 
-def make_inst(g, chart, so, to, route, tag):
+def make_inst(g, chart, so, to, route, tag, prio=None):
     def hook(kind, ident):
         if kind == 'action':
             return "A(%d)\nn = n + 1 if 'n' in dir() else 1" % ident + ("\nsend('b', k=n)" if ident == 0 else '')
         return None
     key = ('c07', tag)
     if ('chart', key) in g.cache:
-        return Inst(g, chart, 'id', sc=g.cache[('chart', key)], tag=tag)
+        return Inst(g, chart, 'id', sc=g.cache[('chart', key)], tag=tag, priorities=prio)
     if route == 'api':
-        return Inst(g, chart, 'id', order=so, tr_order=to, code_hook=hook, tag=tag, cache_key=key)
+        return Inst(g, chart, 'id', order=so, tr_order=to, code_hook=hook, tag=tag, cache_key=key, priorities=prio)
     base = Inst(g, chart, 'id', order=so, tr_order=to, code_hook=hook, tag=tag + '-pre')
-    sc2, trs = via_yaml(base.sc, len(chart['tr']))
+    sc2, trs = via_yaml(base.sc, len(chart['tr']))     # priorities are assigned after the YAML route (C11 covers them)
     g.cache[('chart', key)] = (sc2, trs, base.cm)
-    return Inst(g, chart, 'id', sc=(sc2, trs, base.cm), tag=tag)
+    return Inst(g, chart, 'id', sc=(sc2, trs, base.cm), tag=tag, priorities=prio)
 
 
 def harness(g, chart, level, canary=False):
     vs = variants(chart, level.get('variants', 'few'))
-    ref = make_inst(g, chart, None, None, 'api', 'ref')
-    runs = [(make_inst(g, chart, so, to, route, 'v%d' % i), so, to, route) for i, (so, to, route) in enumerate(vs)]
+    prio = None
+    if level.get('prio'):
+        g.const_hash = True
+        prio = [g.int('p%d' % t) for t in range(len(chart['tr']))]
+    ref = make_inst(g, chart, None, None, 'api', 'ref', prio)
+    runs = [(make_inst(g, chart, so, to, route, 'v%d' % i, prio), so, to, route)
+            for i, (so, to, route) in enumerate(vs)]
     cm = ref.cm
     for _, so, to, route in runs:
         g.witness('yaml_route' if route == 'yaml' else 'api_permuted')
